@@ -53,6 +53,7 @@ CFGS = {  # cfg bits as understood by Extract/Driver.v feat_of  ->  cargo featur
     1: ["align_offset"],
     3: ["align_offset", "track_caller"],
     "must": ["mustrun"],
+    "mustconst": ["mustconst"],
 }
 
 
@@ -187,7 +188,7 @@ def build_harness(tier, cfg, pairs_file=None):
         raise RuntimeError("castgrid generator failed: " + out)
     # keep mtimes stable when nothing changed so cargo does not rebuild
     os.makedirs(os.path.join(d, "src"), exist_ok=True)
-    for rel in ("Cargo.toml", "src/main.rs", "src/types.rs", "src/mustpairs.rs"):
+    for rel in ("Cargo.toml", "src/main.rs", "src/types.rs", "src/mustpairs.rs", "src/mustconst.rs"):
         new = open(os.path.join(d + ".new", rel)).read()
         try:
             old = open(os.path.join(d, rel)).read()
@@ -243,7 +244,7 @@ def transcripts(tier):
                 p = subprocess.run([oracle], stdin=fin, stdout=fout, stderr=subprocess.PIPE, timeout=1500)
                 entry["oracle_rc"] = p.returncode
             entry["oracle_out"] = opath
-        cfgs = cfgs + ["must"]
+        cfgs = cfgs + ["must", "mustconst"]
     for cfg in cfgs:
         exe, out = build_harness(tier, cfg)
         entry = {"features": CFGS[cfg]}
@@ -256,7 +257,7 @@ def transcripts(tier):
         with open(tpath, "w") as f:
             import subprocess
             try:
-                argv = [exe, "0", str(maxlen), "must"] if cfg == "must" else [exe, str(cfg), str(maxlen), "all"]
+                argv = [exe, "0", str(maxlen), "must"] if str(cfg).startswith("must") else [exe, str(cfg), str(maxlen), "all"]
                 p = subprocess.run(argv, stdout=f, stderr=subprocess.PIPE, timeout=1500)
                 entry["run_rc"] = p.returncode
                 entry["run_stderr"] = p.stderr.decode("utf-8", "replace")[-1000:]
@@ -337,8 +338,32 @@ def findings(res, prop):
                 "castgrid cfg=%s does not build: %s" % (cfg, entry["build_error"][-600:]))
             continue
         if entry.get("run_rc", 0) != 0:
-            (stats["harness_errors"] if (prop == "C14" or not must_cfg) else stats["notes"]).append(
-                "castgrid cfg=%s exited with %s: %s" % (cfg, entry.get("run_rc"), entry.get("run_stderr", "")[-300:]))
+            # the harness died (abort / signal): attribute it to the call that followed the last emitted case
+            last = None
+            tp0 = entry.get("transcript")
+            if tp0 and os.path.exists(tp0):
+                with open(tp0, "rb") as f:
+                    f.seek(max(0, os.path.getsize(tp0) - 4000))
+                    tail = f.read().decode("utf-8", "replace").split("\n")
+                for line in reversed(tail):
+                    if re.match(r"^\d+ ", line) and line.count(";") == 3:
+                        last = line
+                        break
+            attributed = False
+            if last is not None:
+                try:
+                    case = parse_case(last)
+                    if case["fn"] in fns or (case["fn"] + 1) in fns or (case["fn"] + 2) in fns:
+                        case["monitor"] = prop
+                        case["clause_violated"] = ("harness-process-died-(rc=%s)-in-the-call-following-this-case: %s" % (
+                            entry.get("run_rc"), entry.get("run_stderr", "").strip()[-160:]))
+                        mons.append(case)
+                    attributed = True
+                except Exception:
+                    pass
+            if not attributed:
+                (stats["harness_errors"] if (prop == "C14" or not must_cfg) else stats["notes"]).append(
+                    "castgrid cfg=%s exited with %s: %s" % (cfg, entry.get("run_rc"), entry.get("run_stderr", "")[-300:]))
         tp = entry.get("transcript")
         if tp and os.path.exists(tp):
             with open(tp) as f:
